@@ -402,6 +402,12 @@ func ParseAuthorization(header string) (scheme string, origin, destination spec.
 				return scheme, "", "", "", ""
 			}
 			value = value[1 : len(value)-1]
+		} else if value == "" || strings.IndexFunc(value, func(r rune) bool {
+			// An unquoted value is a token; older servers also leave the colon
+			// between a server name and its port unquoted.
+			return r <= ' ' || r >= 0x7f || strings.ContainsRune("()<>@,;\\\"/[]?={}", r)
+		}) >= 0 {
+			return scheme, "", "", "", ""
 		}
 		if strings.ContainsAny(value, "\"\\") {
 			return scheme, "", "", "", ""
